@@ -1,0 +1,15 @@
+//go:build verif
+
+package processor
+
+// VerifStage is a verification hook (build tag "verif" only). When set it is
+// called by the pipeline stages when a unit of work is created, handed over or
+// completed, so a test harness can tell when the pipeline is quiescent. The
+// function may block to hold the calling goroutine at that point.
+var VerifStage func(event string, key string)
+
+func stage(event string, key string) {
+	if s := VerifStage; s != nil {
+		s(event, key)
+	}
+}
